@@ -141,11 +141,11 @@ func (b *batchTx) Get(key string) (value string, err error) {
 }
 
 func (b *batchTx) Close() error {
-	if b.err != nil {
-		return b.err
-	}
 	if b.kv.Gate != nil {
 		defer b.kv.Gate.Done()
+	}
+	if b.err != nil {
+		return b.err
 	}
 	return b.tx.Commit()
 }
@@ -178,8 +178,11 @@ func (kv *KeyValue) CommitBatch(b sorted.BatchMutation) error {
 		return fmt.Errorf("wrong BatchMutation type %T", b)
 	}
 	if bt.err != nil {
-		if err := bt.tx.Rollback(); err != nil {
-			log.Printf("Transaction rollback error: %v", err)
+		// bt.tx is nil when the transaction could not even be begun.
+		if bt.tx != nil {
+			if err := bt.tx.Rollback(); err != nil {
+				log.Printf("Transaction rollback error: %v", err)
+			}
 		}
 		return bt.err
 	}
